@@ -355,7 +355,257 @@ def check_C13(tier):
         'HDF5 and sqlalchemy backends cannot be constructed offline'])
 
 
-CHECKS = {'C13': check_C13}
+# ---------------------------------------------------------------------------------------------
+# C14: real processes stepped through TLC-generated schedules
+# ---------------------------------------------------------------------------------------------
+
+# scenario id (as in DirFS / FileFS / SqlFS Scenario) -> (initial contents, operations)
+CONC_SCEN = {
+    11: ([0, 0], [O('set', 1, 11), O('set', 2, 21)]),
+    12: ([10, 0], [O('set', 2, 21), O('get', 1)]),
+    13: ([10, 0], [O('set', 2, 21), O('keys')]),
+    14: ([10, 0], [O('set', 2, 21), O('items')]),
+    15: ([10, 0], [O('set', 2, 21), O('len')]),
+    16: ([10, 0], [O('set', 1, 11), O('get', 1)]),
+    17: ([10, 0], [O('set', 1, 11), O('items')]),
+    18: ([10, 20], [O('del', 1), O('items')]),
+    19: ([10, 0], [O('set', 1, 11), O('contains', 1)]),
+    20: ([10, 0], [O('set', 2, 21), O('load')]),
+    21: ([10, 20], [O('del', 1), O('set', 2, 21)]),
+    22: ([0, 0], [O('set', 1, 11), O('set', 2, 21), O('items')]),
+    23: ([10, 0], [O('set', 2, 21), O('open')]),
+    24: ([10, 0], [O('set', 2, 21), O('open'), O('load')]),
+}
+DIR_SCEN = [11, 12, 13, 14, 15, 16, 17, 18, 19, 20, 21, 22]
+FILE_SCEN = [12, 13, 14, 15, 16, 18, 20, 23, 24]      # (writer/writer is promised for directory and SQL archives only)
+
+
+def conc_schedules(module, gen, scen, devs, maxsw, work):
+    """all complete behaviours of layer I with at most `maxsw` context switches: (schedule, predicted results, predicted verdict)"""
+    p = os.path.join(work, '%s-%d-sw%d.cfg' % (gen, scen, maxsw))
+    lines = ['SPECIFICATION Spec', 'CONSTANTS', '  NK = %d' % NK, '  SCEN = %d' % scen, '  CRASH = FALSE',
+             '  Deviations = %s' % common.tla_value(set(devs)) if devs else '  Deviations = {}', '  MAXSW = %d' % maxsw,
+             'INVARIANT Emit', 'CONSTRAINT FewSwitches', 'CHECK_DEADLOCK FALSE']
+    open(p, 'w').write('\n'.join(lines) + '\n')
+    r = common.run_tlc(gen, p, workdir=work, workers=1, timeout=900, heap='2g')
+    out = []
+    for m in re.finditer(r'<<"SCHED", "(.*)">>', r.out):
+        out.append(json.loads(m.group(1).replace('\\"', '"')))
+    if not out:
+        raise common.MachineryError('%s produced no schedule for scenario %d:\n%s' % (gen, scen, r.out[-1500:]))
+    return out, r.distinct, r.generated
+
+
+class Stepped(object):
+    """a worker process parked before each of its file-system calls"""
+    def __init__(self, backend, keys, init, op, wd, noinit):
+        spec = {'init': init, 'op': op, 'keys': keys, 'noinit': noinit}
+        self.p = subprocess.Popen([common.PY, '-m', 'harness.fs_worker', common.REPO, backend, wd, 'step', json.dumps(spec)],
+                                  stdin=subprocess.PIPE, stdout=subprocess.PIPE, stderr=subprocess.PIPE, text=True, env=worker_env(), cwd=wd)
+        if self.p.stdout.readline().strip() != 'ready':
+            raise common.MachineryError('stepped worker did not get ready: %s' % self.p.stderr.read()[-800:])
+        self.pending = None      # label of the call it is parked at
+        self.res = None
+        self.trail = []
+        self.started = False
+
+    def _read(self):
+        import select
+        r, _, _ = select.select([self.p.stdout], [], [], 60)
+        if not r:
+            raise common.MachineryError('stepped worker made no progress in 60 s (trail %s)' % self.trail[-6:])
+        line = self.p.stdout.readline()
+        if line.startswith('AT '):
+            self.pending = line[3:].strip()
+        elif line.startswith('RES '):
+            self.res = json.loads(line[4:])
+            self.pending = None
+        else:
+            raise common.MachineryError('stepped worker said %r / %s' % (line, self.p.stderr.read()[-800:]))
+
+    def start(self):
+        self.p.stdin.write('go\n')
+        self.p.stdin.flush()
+        self.started = True
+        self._read()
+
+    def done(self):
+        return self.res is not None
+
+    def step(self):
+        """release the call it is parked at; returns that call's label"""
+        lab = self.pending
+        self.trail.append(lab)
+        self.p.stdin.write('go\n')
+        self.p.stdin.flush()
+        self._read()
+        return lab
+
+    def close(self):
+        try:
+            self.p.kill()
+        except Exception:
+            pass
+        for f in (self.p.stdin, self.p.stdout, self.p.stderr):
+            try:
+                f.close()
+            except Exception:
+                pass
+        try:
+            self.p.wait(timeout=10)
+        except Exception:
+            pass
+
+
+def run_schedule(job):
+    backend, keys, sid, init, ops, sched, wd, predicted = job
+    shutil.rmtree(wd, True)
+    os.makedirs(wd)
+    ws = []
+    try:
+        for i, op in enumerate(ops):
+            ws.append(Stepped(backend, keys, init, op, wd, noinit=i > 0))
+        for w in ws:
+            w.start()
+        order = []
+        for p, lab in sched:
+            if lab.startswith('end') or lab == 'KILL':
+                continue
+            w = ws[p - 1]
+            for _ in range(8):                 # calls of the real process the model does not have are passed over
+                if w.done():
+                    break
+                got = w.step()
+                order.append([p, got])
+                if got == lab:
+                    break
+        while any(not w.done() for w in ws):   # whatever is left, round-robin
+            for i, w in enumerate(ws, 1):
+                if not w.done():
+                    order.append([i, w.step()])
+        res = [w.res for w in ws]
+    except common.MachineryError as ex:
+        return {'error': str(ex), 'meta': {'backend': backend, 'scenario': sid}}
+    finally:
+        for w in ws:
+            w.close()
+    view = view_of(backend, wd, keys)
+    shutil.rmtree(wd, True)
+    rr = [{'ok': r['ok'], 'exc': r['exc'], 'i': r['i'], 'm': r['m']} for r in res]
+    return {'events': [{'kind': 'conc', 'single': backend.startswith('file'), 'M': init, 'ops': ops, 'res': rr, 'view': view}],
+            'meta': {'backend': backend, 'keys': keys, 'scenario': sid, 'init': init, 'ops': ops, 'schedule': sched, 'real_order': order,
+                     'results': res, 'model_predicts_violation': bool(predicted)}}
+
+
+def conc_signature(t, v):
+    m = t['meta']
+    return {'engine': 'fs', 'kind': 'conc', 'clauses': v[1], 'backend': m['backend'], 'family': family(m['backend']),
+            'ops': [o['t'] for o in m['ops']], 'same_key': len({o['k'] for o in m['ops'] if o['t'] in ('set', 'del', 'pop', 'get', 'contains')}) == 1,
+            'excs': sorted({r['exc'] for r in m['results'] if not r['ok']}),
+            'overwrite': any(o['t'] in ('set', 'update', 'dump') and m['init'][o['k'] - 1] != 0 for o in m['ops']),
+            'removal': any(o['t'] in ('del', 'pop', 'clear') for o in m['ops']),
+            'opener': any(o['t'] == 'open' for o in m['ops'])}
+
+
+def check_C14(tier):
+    pid = 'C14'
+    rep = common.Report(pid, tier)
+    thorough = tier == 'thorough'
+    work = common.scratch('fs14')
+    rng = random.Random(common.seed() + 14)
+    mcs = []
+    devs = {}
+    # layer I, all interleavings (state graph): idealised must hold; the code as it is gives candidates
+    jobs = []
+    for sid in DIR_SCEN:
+        jobs.append(('DirFS', sid, False, set(), work, 'ConcOK'))
+        jobs.append(('DirFS', sid, False, CURRENT_DIR, work, 'ConcOK'))
+    for sid in FILE_SCEN:
+        jobs.append(('FileFS', sid, False, set(), work, 'ConcOK'))
+        jobs.append(('FileFS', sid, False, CURRENT_FILE, work, 'ConcOK'))
+    with ThreadPoolExecutor(max_workers=8) as ex:
+        for r in ex.map(lambda j: tlc_model(*j), jobs):
+            mcs.append(r)
+            if r['violated'] and not r['deviations']:
+                rep.note_drift('layer I (%s scenario %d) violates C14 with no deviation enabled' % (r['module'], r['scenario']))
+            if r['deviations']:
+                devs['%s-%d' % (r['module'], r['scenario'])] = {'counterexample_found': r['violated']}
+    maxsw = 4 if thorough else 3
+    plans = []
+    gen_states = gen_trans = 0
+    genjobs = [('DirFS', 'FsGen', sid, CURRENT_DIR) for sid in DIR_SCEN] + [('FileFS', 'FsGenFile', sid, CURRENT_FILE) for sid in FILE_SCEN]
+    with ThreadPoolExecutor(max_workers=8) as ex:
+        gens = list(ex.map(lambda g: conc_schedules(g[0], g[1], g[2], g[3], maxsw if len(CONC_SCEN[g[2]][1]) < 3 else maxsw - 1, work), genjobs))
+    root = common.scratch('fs-conc')
+    jobs = []
+    nsched = 0
+    for (module, gen, sid, cur), (scheds, st, tr) in zip(genjobs, gens):
+        gen_states += st
+        gen_trans += tr
+        nsched += len(scheds)
+        init, ops = CONC_SCEN[sid]
+        fam = 'dir' if module == 'DirFS' else 'file'
+        backends = [b for b in ALL_BACKENDS if b.startswith(fam)]
+        bad = [x for x in scheds if x['bad']]
+        good = [x for x in scheds if not x['bad']]
+        rng.shuffle(good)
+        rng.shuffle(bad)
+        pick = bad[:(40 if thorough else 6)] + good[:(60 if thorough else 6)]
+        for n, x in enumerate(pick):
+            bs = backends if thorough and n < 6 else [backends[0]] + ([backends[1 + (n + sid) % (len(backends) - 1)]] if n % 3 == 0 else [])
+            for b in bs:
+                keys = 'tuple' if (b == 'dir' and n % 4 == 3) else 'str'
+                jobs.append((b, keys, sid, init, ops, x['sched'], os.path.join(root, 'c%d' % len(jobs)), x['bad']))
+        if module == 'DirFS':
+            # the sqlite table gets the same scenarios; its own statement-level points are passed through in the
+            # schedule's process order
+            for n, x in enumerate(pick[:(20 if thorough else 4)]):
+                jobs.append(('sql-file', 'str', sid, init, ops, x['sched'], os.path.join(root, 'c%d' % len(jobs)), False))
+    t0 = time.time()
+    with ThreadPoolExecutor(max_workers=max(2, common.NCPU // 2)) as ex:
+        traces = list(ex.map(run_schedule, jobs))
+    bad = [t for t in traces if 'error' in t]
+    if bad:
+        raise common.MachineryError('stepping controller failed (%d): %s' % (len(bad), bad[0]))
+    t_run = time.time() - t0
+    verdicts, st = common.validate_traces('FsTrace', [{'events': t['events']} for t in traces], [pid])
+    nrej = 0
+    agree = 0
+    for t, v in zip(traces, verdicts):
+        if (v is not None) == t['meta']['model_predicts_violation']:
+            agree += 1
+        if v is None:
+            continue
+        nrej += 1
+        rep.reject(conc_signature(t, v), dict(t['meta'], clauses=v[1], view=t['events'][0]['view']))
+    distinct = len({common.trace_hash([t['meta']['backend'], t['meta']['keys'], t['meta']['scenario'], t['meta']['real_order']]) for t in traces})
+    s0 = next((t for t in traces if t['meta']['scenario'] == 14), traces[0])
+    sample = {'backend': s0['meta']['backend'], 'contents_before': s0['meta']['init'], 'operations': s0['meta']['ops'],
+              'interleaving_of_real_calls': s0['meta']['real_order'], 'results': s0['meta']['results'], 'fresh_process_sees': s0['events'][0]['view']}
+    cov = {'states': sum(m['distinct'] for m in mcs) + gen_states + st['states'],
+           'transitions': sum(m['generated'] for m in mcs) + gen_trans + st['events'],
+           'traces_validated_against_impl': len(traces), 'samples': [sample],
+           'evaluations': len(traces), 'distinct_nontrivial': distinct,
+           'rule': 'one evaluation = one schedule (an interleaving of the file-system calls of two or three operations, generated by TLC '
+                   'from layer I with a bound on context switches) executed by real processes parked before each of their calls; '
+                   'distinct by hash of (configuration, scenario, real interleaving)',
+           'exhaustive': False, 'schedules_generated': nsched, 'max_context_switches': maxsw,
+           'model_and_code_agree_on': '%d of %d schedules' % (agree, len(traces)),
+           'scenarios': [{'id': k, 'contents_before': v[0], 'operations': v[1]} for k, v in sorted(CONC_SCEN.items())],
+           'layer_I_vs_code_as_it_is': devs, 'model_checking': {'layer_I_runs': mcs},
+           'trace_validation': {'traces': len(traces), 'rejected': nrej, 'wall_s': round(st['wall'], 1), 'run_wall_s': round(t_run, 1)}}
+    return rep.finish('model_checking', cov, [
+        'processes, not threads; scheduling points: open, mkdir, rename, remove, rmdir, scandir/listdir (audit events) plus the first '
+        'write and the close of a file opened for writing and os.path.exists (wrapped in the worker launcher); reads of an open file '
+        'are taken together with its open',
+        'sqlite: scheduling points are SQL statements; a data-changing statement and its commit are one step (the controller never '
+        'parks a process inside a transaction, so it cannot itself cause "database is locked")',
+        'two or three operations per schedule, two keys; schedules with a bounded number of context switches, all of those the model '
+        'predicts to violate first',
+        'HDF5 and sqlalchemy backends cannot be constructed offline'])
+
+
+CHECKS = {'C13': check_C13, 'C14': check_C14}
 
 
 def main(pid, tier):
